@@ -198,6 +198,11 @@ def input_stream(ctx, cfgs):
         for c in allc[wr] + random_contents(wr, rng, 6 if ctx.quick else 80):
             yield mk(plain(wr), c)
             yield mk(plain(wr, wk=2, w0=3, hk=2, h0=3), c)
+    # every single byte value alone and after an alphanumeric prefix (content classification tables are indexed by the byte)
+    for wr in WRITERS:
+        for b in range(256):
+            yield mk(plain(wr), ("byte %d" % b, [b], 1))
+            yield mk(plain(wr), ("AB1 + byte %d" % b, [65, 66, 49, b], 4))
     for x in margin_family(rng, ctx.quick):
         yield x
     # the TLC-generated configuration space x content classes
